@@ -5,6 +5,7 @@ package main
 // a hang costs one case).  Any panic, crash or hang is a counterexample by itself.
 
 import (
+	"encoding/json"
 	"bytes"
 	"encoding/xml"
 	"fmt"
@@ -165,6 +166,19 @@ func c15Decode(api string, data []byte, o DecOpt) string {
 		}
 	} else if err != nil && m != nil && len(m) > 0 {
 		notes = append(notes, "an error was returned together with a partial Map")
+	}
+	// the JSON reader forms accept a stream that starts with an object encoding/json accepts
+	if api == "NewMapJsonReader" || api == "NewMapJsonReaderRaw" {
+		if t := bytes.TrimLeft(data, " \t\r\n"); len(t) > 0 && t[0] == '{' {
+			var ref map[string]interface{}
+			if rerr := json.NewDecoder(bytes.NewReader(t)).Decode(&ref); rerr == nil && ref != nil {
+				if err != nil {
+					notes = append(notes, "JSONFIRST encoding/json accepts the first object of the stream but "+api+" failed: "+oneLine(err.Error()))
+				} else if !deepEq(ref, m) {
+					notes = append(notes, "JSONFIRST "+api+" returned a different Map than encoding/json for the first object of the stream")
+				}
+			}
+		}
 	}
 	// every Map produced by a decoder can be passed to the corresponding encoder
 	if err == nil && m != nil {
